@@ -689,6 +689,7 @@ func (fr *Frame) execRecv(st *State, x *ssa.UnOp, ch *Val) *Val {
 		// the closure / cancellation channels; a plain receive waits for one peer unconditionally
 		fr.c.oblige(fr, st, "safe", fmt.Sprintf("safe:plainrecv#%d", fr.c.ordinals[x]), False, []string{"C11"}, "blocking receive outside a select: "+x.String(), false)
 	}
+	fr.blockingCheck(st, x, "receive")
 	et := x.X.Type().Underlying().(*types.Chan).Elem()
 	v, facts := freshVal(et, "recv")
 	for _, f := range facts {
@@ -743,6 +744,7 @@ func (fr *Frame) noteSeenClosed(st *State, ch *Val, cond *Term) {
 }
 
 func (fr *Frame) execSend(st *State, x *ssa.Send) {
+	fr.blockingCheck(st, x, "send")
 	ch := fr.get(st, x.Chan)
 	gf, ok := fr.c.eng.ghostFields["chclosed"]
 	if ok {
